@@ -36,11 +36,13 @@ theorem alloc_sound (p : Program) (A : Alloc) (h : check p A = true)
   run_rel S A Js p (check_sound p A h) n s t ⟨hpc, hst, hregs⟩
 
 /-- The hypothesis of `alloc_sound` is satisfiable at function entry for EVERY initial
-    virtual state: there is a physical register file holding all entry-live values. -/
-theorem entry_state_exists (p : Program) (A : Alloc) (h : check p A = true)
+    virtual state when `entryOkB` holds too (no two values that are live-in at entry — read
+    before any definition — share a register): there is a physical register file holding
+    all entry-live values. -/
+theorem entry_state_exists (p : Program) (A : Alloc) (h : check p A = true) (he : entryOkB A = true)
     {Val σ : Type} (R : VReg → Val) (st : σ) :
     ∃ P : PReg → Val, ∀ v ∈ A.live 0, P (A.colour v) = R v :=
-  ⟨entryRegs A R, (entry_rel (σ := σ) A p (check_sound p A h) R st).2.2⟩
+  ⟨entryRegs A R, (entry_rel (σ := σ) A p (check_sound p A h) (entryOkB_sound A he) R st).2.2⟩
 
 /-- **Sentence 1 of C06.**  In every execution from the function entry, at every step,
     the operands the coloured instruction reads from physical registers are exactly the
@@ -62,7 +64,7 @@ theorem reads_agree (p : Program) (A : Alloc) (h : check p A = true)
     are live at the same program point — not both of them fixed physical registers of the
     input program — occupy overlapping physical registers only if it is the identical
     register and the two values are equal (copies of each other). -/
-theorem shared_register_means_copies (p : Program) (A : Alloc) (h : check p A = true)
+theorem shared_register_means_copies (p : Program) (A : Alloc) (h : check p A = true) (he : entryOkB A = true)
     {Val σ : Type} (S : Sem Val σ) (Js : Nat → PReg → Val) (R : VReg → Val) (st : σ) (n : Nat) :
     let s := vrun S A.model Js p n ⟨0, R, st⟩
     ∀ v ∈ A.live s.pc, ∀ w ∈ A.live s.pc, ¬ (A.isFixed v = true ∧ A.isFixed w = true) →
@@ -70,10 +72,10 @@ theorem shared_register_means_copies (p : Program) (A : Alloc) (h : check p A = 
       A.colour v = A.colour w ∧ s.regs v = s.regs w := by
   intro s v hv w hw hnf ho
   have hc := check_sound p A h
-  have hcol := live_share_static p A hc s.pc (vrun_reach S A.model p R st n Js) v hv w hw hnf ho
+  have hcol := live_share_static p A hc (entryOkB_sound A he) s.pc (vrun_reach S A.model p R st n Js) v hv w hw hnf ho
   refine ⟨hcol, ?_⟩
   have hr := run_rel S A Js p hc n (⟨0, R, st⟩ : VState Val σ) ⟨0, entryRegs A R, st⟩
-    (entry_rel A p hc R st)
+    (entry_rel A p hc (entryOkB_sound A he) R st)
   have h1 := hr.2.2 v hv
   have h2 := hr.2.2 w hw
   rw [← h1, ← h2, hcol]
@@ -110,7 +112,7 @@ def exBad : Alloc := { exGood with colour := fun v => [2, 1, 2].getD v 0 }
 /-- liveness that forgets that b is live across the call is not accepted -/
 def exBadLive : Alloc := { exGood with live := fun i => [[], [0], [0, 1], [2], [2, 1], [2, 1], [2]].getD i [] }
 
-example : check exProg exGood = true := by decide +kernel
+example : check exProg exGood = true ∧ entryOkB exGood = true := by decide +kernel
 example : check exProg exBad = false := by decide +kernel
 example : check exProg exBadLive = false := by decide +kernel
 
